@@ -4,10 +4,10 @@
 //! StackMapTable without rows), flags-only attributes, the same attribute at every level, and an
 //! annotations attribute occurring twice in one item.  Built by editing the raw structure of a base
 //! class (`fbh::classfile::raw`: parse, edit, byte-exact write).
-use fbh::classfile::raw::{self, Annotation, AttrInfo, Attribute, Const, ElementValue, LineNumber, LocalVar, RawClass};
+use fbh::classfile::raw::{self, Annotation, AttrInfo, Attribute, Const, ElementValue, LineNumber, LocalVar, RawClass, TargetInfo, TypeAnnotation};
 use fbh::prng::Rng;
 
-pub const KINDS: [&str; 11] = ["empty-annotations", "empty-lists", "empty-debug-tables", "flags-only", "signature-everywhere", "dup-annotations", "mixed-debug-tables", "reordered-debug-tables", "cldc-stackmap", "annotation-values", "too-deep-annotation"];
+pub const KINDS: [&str; 12] = ["empty-annotations", "empty-lists", "empty-debug-tables", "flags-only", "signature-everywhere", "dup-annotations", "mixed-debug-tables", "reordered-debug-tables", "cldc-stackmap", "annotation-values", "type-annotation-values", "too-deep-annotation"];
 
 fn utf8(c: &mut RawClass, s: &str) -> u16 {
 	for (i, e) in c.pool.iter().enumerate() {
@@ -250,6 +250,53 @@ pub fn edit(rng: &mut Rng, c: &mut RawClass, kind: &str) -> bool {
 				}
 			});
 		}
+		"type-annotation-values" => {
+			// Type annotations built from scratch, per location every target type its reader admits, with the values at the ends of
+			// their ranges: type parameter / bound / formal parameter / type argument index 0 and 255, super type index 0, 65534 and
+			// 65535 (the super class), throws index 0 and 65535, local-variable tables without rows, with one row spanning the whole
+			// code (slot 65535) and with several rows, offsets at the first instruction; type paths: empty, each kind alone, a type
+			// argument index 255, mixed, and once 255 entries long (path_length is a u8)
+			let ty = utf8(c, "Lverif/TA;");
+			let (nm, sv) = (utf8(c, "value"), utf8(c, "s"));
+			let idx: Vec<u16> = ANN[2..].iter().map(|n| utf8(c, n)).collect();
+			let paths: Vec<Vec<(u8, u8)>> = vec![vec![], vec![(0, 0)], vec![(1, 0), (1, 0)], vec![(2, 0)], vec![(3, 255)], vec![(3, 0), (0, 0), (3, 7), (2, 0)], vec![(0, 0); 255]];
+			let mut long_done = false;
+			// Code needs its length and whether it has an exception table: collected first, by position
+			let mut code_info: Vec<(u16, bool)> = vec![];
+			for m in c.methods.iter() { for a in m.attributes.iter() { if let AttrInfo::Code(code) = &a.info { code_info.push((code.code.len().min(65535) as u16, !code.exception_table.is_empty())); } } }
+			let mut code_no = 0usize;
+			for_each_list(c, &mut |level, attrs| {
+				let (len, has_exc) = if level == 3 { let x = code_info.get(code_no).copied().unwrap_or((1, false)); code_no += 1; x } else { (0, false) };
+				for i in 0..2 {
+					if has(attrs, ANN[2 + i]) || !rng.chance(2, 3) { continue; }
+					let targets: Vec<(u8, TargetInfo)> = match level {
+						0 => vec![(0x00, TargetInfo::TypeParameter(0)), (0x00, TargetInfo::TypeParameter(255)), (0x10, TargetInfo::Supertype(65535)), (0x10, TargetInfo::Supertype(65534)),
+							(0x10, TargetInfo::Supertype(0)), (0x11, TargetInfo::TypeParameterBound(255, 255)), (0x11, TargetInfo::TypeParameterBound(0, 1))],
+						1 | 4 => vec![(0x13, TargetInfo::Empty)],
+						2 => vec![(0x01, TargetInfo::TypeParameter(255)), (0x12, TargetInfo::TypeParameterBound(255, 0)), (0x12, TargetInfo::TypeParameterBound(1, 255)), (0x14, TargetInfo::Empty),
+							(0x15, TargetInfo::Empty), (0x16, TargetInfo::FormalParameter(0)), (0x16, TargetInfo::FormalParameter(255)), (0x17, TargetInfo::Throws(0)), (0x17, TargetInfo::Throws(65535))],
+						_ => {
+							let mut v = vec![(0x40, TargetInfo::LocalVar(vec![])), (0x40, TargetInfo::LocalVar(vec![(0, len, 65535)])), (0x41, TargetInfo::LocalVar(vec![(0, 0, 0), (0, len, 1), (0, len, 256)])),
+								(0x43, TargetInfo::Offset(0)), (0x44, TargetInfo::Offset(0)), (0x45, TargetInfo::Offset(0)), (0x46, TargetInfo::Offset(0)),
+								(0x47, TargetInfo::TypeArgument(0, 255)), (0x48, TargetInfo::TypeArgument(0, 0)), (0x49, TargetInfo::TypeArgument(0, 1)), (0x4a, TargetInfo::TypeArgument(0, 255)), (0x4b, TargetInfo::TypeArgument(0, 7))];
+							if has_exc { v.push((0x42, TargetInfo::Catch(0))); }
+							v
+						}
+					};
+					let n = rng.range(1, targets.len().min(5));
+					let mut tas = vec![];
+					for k in 0..n {
+						let (target_type, target) = targets[(rng.below(targets.len()) + k) % targets.len()].clone();
+						let path = if !long_done && rng.chance(1, 3) { long_done = true; paths[6].clone() } else { paths[rng.below(6)].clone() };
+						let pairs = if rng.chance(1, 2) { vec![(nm, ElementValue::Const { tag: b's', index: sv })] } else { vec![] };
+						tas.push(TypeAnnotation { target_type, target, path, annotation: Annotation { type_index: ty, pairs } });
+					}
+					let info = if i == 0 { AttrInfo::RuntimeVisibleTypeAnnotations(tas) } else { AttrInfo::RuntimeInvisibleTypeAnnotations(tas) };
+					put(rng, attrs, attr(idx[i], ANN[2 + i], info));
+					changed = true;
+				}
+			});
+		}
 		"too-deep-annotation" => {
 			// one level more than the reader admits (65 arrays around an int): the full visitor refuses the class, a visitor that is
 			// not interested in the attribute skips it by its length
@@ -318,21 +365,18 @@ pub fn make(rng: &mut Rng, base: &[u8], kinds: &[&str]) -> Option<Vec<u8>> {
 pub struct Shape {
 	/// an annotations attribute without annotations somewhere (known finding: the tree cannot hold it)
 	pub empty_annotations: bool,
-	/// a LocalVariableTable / LocalVariableTypeTable without rows in some Code
-	pub rowless_local_table: bool,
 	/// an at-most-once attribute that the tree builder merges / overwrites occurs twice in one item (outside the hypothesis)
 	pub duplicate_merged: bool,
 }
 
 pub fn shape(bytes: &[u8]) -> Option<Shape> {
 	let mut c = raw::parse(bytes).ok()?;
-	let mut s = Shape { empty_annotations: false, rowless_local_table: false, duplicate_merged: false };
+	let mut s = Shape { empty_annotations: false, duplicate_merged: false };
 	for_each_list(&mut c, &mut |_level, attrs| {
 		for a in attrs.iter() {
 			match &a.info {
 				AttrInfo::RuntimeVisibleAnnotations(v) | AttrInfo::RuntimeInvisibleAnnotations(v) => if v.is_empty() { s.empty_annotations = true; },
 				AttrInfo::RuntimeVisibleTypeAnnotations(v) | AttrInfo::RuntimeInvisibleTypeAnnotations(v) => if v.is_empty() { s.empty_annotations = true; },
-				AttrInfo::LocalVariableTable(v) | AttrInfo::LocalVariableTypeTable(v) => if v.is_empty() { s.rowless_local_table = true; },
 				_ => {}
 			}
 		}
